@@ -251,6 +251,31 @@ func generate(rng *rand.Rand, tier string) []interface{} {
 			}
 		}
 	}
+	// ---- 2d. the children's FIRST messages arrive at the same time on different connections and race
+	// for the creation of the instance (slow protocol constructor); a second, sequential round follows
+	nr := 3
+	if thorough {
+		nr = 20
+	}
+	for k := 2; k <= 4; k++ {
+		for _, typ := range aggTypes {
+			for rep := 0; rep < nr; rep++ {
+				b := newBuilder(rng, 0)
+				for _, c := range shuffled(rng, seq(1, k)) {
+					b.msgs = append(b.msgs, nodeh.Msg{Inst: 0, From: c, Peer: c, Wire: -1, Type: typ, Payload: b.payload, Route: "process"})
+					b.payload++
+				}
+				b.msgs = append(b.msgs, nodeh.Msg{Inst: 0, From: 0, Peer: nodeh.PeerNone, Wire: -1, Type: nodeh.TFence, Payload: b.fence, Route: "transmit"})
+				b.fence++
+				for _, c := range shuffled(rng, seq(1, k)) {
+					b.send(0, c, typ)
+				}
+				in := b.scenario(star(k), fmt.Sprintf("race/fanout-%d/%s", k, kindName[typ]))
+				in.Race = k
+				ins = append(ins, in)
+			}
+		}
+	}
 	// ---- 3. several aggregated types (and single ones) in flight at once
 	nm := 150
 	if thorough {
@@ -441,6 +466,35 @@ func run(raw json.RawMessage) lib.Case {
 		}
 	}
 	res := pool.Run(&in.Scenario)
+	if in.Race > 1 && in.Race <= len(in.Msgs) && len(res.FromIDs) == len(in.Msgs) {
+		// the acceptance order of the concurrent messages is what the batch shows (arrival order);
+		// without a batch the listed order stands
+		pos := map[int64]int{}
+		for i := 0; i < in.Race; i++ {
+			pos[in.Msgs[i].Payload] = i
+		}
+		for _, d := range res.Deliveries {
+			if !d.Agg || len(d.Elems) != in.Race {
+				continue
+			}
+			var order []int
+			seen := map[int]bool{}
+			for _, e := range d.Elems {
+				if i, ok := pos[e.Payload]; ok && !seen[i] {
+					order = append(order, i)
+					seen[i] = true
+				}
+			}
+			if len(order) == in.Race {
+				msgs := append([]nodeh.Msg{}, in.Msgs...)
+				ids := append([]int{}, res.FromIDs...)
+				for j, i := range order {
+					in.Msgs[j], res.FromIDs[j] = msgs[i], ids[i]
+				}
+			}
+			break
+		}
+	}
 	// only a malformed scenario (a generator / replay-file error the implementation cannot cause) is dropped
 	if res.Status == "error" || len(res.Nodes) == 0 || len(res.FromIDs) != len(in.Msgs) {
 		fmt.Fprintln(os.Stderr, "discarded scenario:", res.Status, res.Detail)
@@ -487,7 +541,7 @@ func main() {
 		Import: "Onet.Corr.C04",
 		Rule: "all arrival orders of the children's messages for fan-out 1..4 (1 round; 2 rounds: full product up to fan-out 3, sampled for 4; 3 rounds sampled), " +
 			"fan-out 5 sampled; handler and channel registrations; an inner node (depth 1, and depth 2-3 where the parent is not the root) with the parent's messages of the same aggregated type in between; aggregated channels of capacity 1, 2 and 100 with 2-5 complete rounds handed over BEFORE the protocol reads (the unchanged code waits in the channel send); 2-3 aggregated types plus single types in flight; " +
-			"two instances on one node interleaved; seeded scenarios outside the hypothesis (unseparated rounds, non-child senders) for the model comparison only; " +
+			"the children's first messages handed over concurrently while the protocol constructor is slow (race for the creation of the instance; acceptance order read off the batch); two instances on one node interleaved; seeded scenarios outside the hypotheses of the theorems, judged by the literal reading of the text: children pipelining rounds (class unseparated), tree members that are not children sending the type (nonchild), a forged child message among the genuine ones (poisoned) -- the pinned code deviates there (known findings); every scenario is judged except trees with repeated node ids (class prefix unjudged-repeated-ids, none generated); " +
 			"a fence message through the same instance after every injected message; non-trivial = an aggregated batch was delivered",
 		Shard:    120,
 		Generate: generate,
